@@ -363,7 +363,7 @@ def alignment(rep, idx, flat=None):
     rep.check(ok, "C02.8", a.fi.site, "align_to() advances the cursor to a multiple of 2**max(alignment, map alignment)",
               f"self._next_addr = {ir.show(st[0]) if st else None}")
     rets = [a.norm(v) for v, gen, ln in a.t.returns]
-    rep.check(rets == [a.parse("self._next_addr")], "C02.8", a.fi.site, "align_to() returns the new cursor", f"returns {[ir.show(r) for r in rets]}",
+    rep.check(rets == [a.parse("self._next_addr")] or (st is not None and rets == [a.norm(st[0])]), "C02.8", a.fi.site, "align_to() returns the new cursor", f"returns {[ir.show(r) for r in rets]}",
               nontrivial=False)
     w = get_fn(idx, "MemoryMap.add_window")
     calls = [x for x, gen, ln in w.calls_named("_compute_addr_range")]
